@@ -142,12 +142,19 @@ def _coupling(case):
 
 
 def _baths(case):
-    """per-site (lam, tau): 'same' or 'graded' (site i: lam*(1+i/2), tau*(1+i/4))."""
+    """per-site (lam, tau): 'same', 'graded' (site i: lam*(1+i/2), tau*(1+i/4)), or graded in
+    ONE parameter only: 'same-lam' (equal reorganisation energies, tau*(1+i/2)) and 'same-tau'
+    (equal correlation times, lam*(1+i/2)) - baths that differ although one of the numbers
+    that describe them agrees."""
     n = case["n"]
     out = []
     for i in range(n):
         if case["bathpat"] == "same":
             out.append((float(case["lam"]), float(case["tau"])))
+        elif case["bathpat"] == "same-lam":
+            out.append((float(case["lam"]), float(case["tau"]) * (1.0 + 0.5 * i)))
+        elif case["bathpat"] == "same-tau":
+            out.append((float(case["lam"]) * (1.0 + 0.5 * i), float(case["tau"])))
         else:
             out.append((float(case["lam"]) * (1.0 + 0.5 * i),
                         float(case["tau"]) * (1.0 + 0.25 * i)))
@@ -413,7 +420,11 @@ def eval_system(case):
                 hi, lo = (i, j) if ri >= rj else (j, i)     # lo -> hi is uphill
                 decay = (GR.dephasing_exponent(baths[i][0], baths[i][1], T, tw)
                          + GR.dephasing_exponent(baths[j][0], baths[j][1], T, tw))
-                if decay < F_DECAY:
+                if decay < F_DECAY or abs(ri - rj) >= FREQ_CUTOFF_CM:
+                    # beyond the cut-off frequency the true overlap integral is far below the
+                    # error of its numerical integration (both directions ~1e-6/fs of quadrature
+                    # noise at dt = 1 fs): "within the accuracy of the numerical integration"
+                    # leaves nothing to compare
                     nfoe_in += 1
                     continue
                 nfoe_adm += 1
@@ -611,13 +622,13 @@ def system_cases(tier):
         # "full": a 3-site chain with equidistant energies has a persymmetric eigenvector
         # matrix, for which rows and columns of the transformation cannot be told apart
         dom = {"section": ["system"], "route": ["ham_sbi", "sd", "aggregate"], "n": [2, 3],
-               "Jpat": ["chain", "full"], "bathpat": ["same", "graded"],
+               "Jpat": ["chain", "full"], "bathpat": ["same", "graded", "same-lam", "same-tau"],
                "J": [0.0, 30.0, 100.0, -80.0], "gap": [0.0, 100.0, 300.0],
                "lam": [10.0, 40.0], "tau": [50.0, 100.0], "T": [300.0, 77.0],
                "axis": [[1500, 1.0], [3000, 0.5]], "e0": [0.0, 150.0]}
     else:
         dom = {"section": ["system"], "route": ["ham_sbi", "sd", "aggregate"], "n": [2, 3, 4],
-               "Jpat": ["chain", "full"], "bathpat": ["same", "graded"],
+               "Jpat": ["chain", "full"], "bathpat": ["same", "graded", "same-lam", "same-tau"],
                "J": [0.0, 30.0, 100.0, -80.0], "gap": [0.0, 100.0, 300.0],
                "lam": [10.0, 40.0], "tau": [50.0, 100.0], "T": [300.0, 150.0, 77.0],
                "axis": [[1500, 1.0], [3000, 0.5], [4000, 1.0]], "e0": [0.0, 150.0, -300.0]}
@@ -632,6 +643,10 @@ def system_cases(tier):
             return False                       # uncoupled: one representative per size
         if tier == "quick" and c["route"] != "ham_sbi" and c["n"] == 3:
             return False                       # quick: 3 sites on the plain route only
+        if c["bathpat"] in ("same-lam", "same-tau") and (
+                c["e0"] != 0.0 or c["J"] == 0.0 or c["gap"] == 0.0 or
+                (tier == "quick" and (c["axis"][0] != 1500 or c["T"] != 300.0))):
+            return False                       # one-parameter gradings: coupled, non-degenerate
         if c["e0"] != 0.0 and (c["route"] == "sd" or c["axis"][0] != 1500 or c["tau"] != 50.0
                                or c["lam"] != 10.0 or c["J"] not in (0.0, 30.0)):
             return False                       # ground-state offsets: on one grid and bath
@@ -639,6 +654,15 @@ def system_cases(tier):
             return False                       # quick: the general coupling pattern on one grid
         return admissible(c)
     cs = product(dom, ok)
+    # transition frequencies beyond the frequency cut-off of the rate code (3000 1/cm): the
+    # golden-rule clauses do not apply there (pairs are filtered by wmax), sign, column-sum,
+    # ground-state and detailed-balance clauses do - a rate may be dropped, but in both directions
+    dom2 = dict(dom)
+    dom2.update({"gap": [3100.0, 3600.0], "J": [100.0, 400.0], "lam": [40.0], "tau": [50.0],
+                 "axis": [[1500, 1.0]], "e0": [0.0], "bathpat": ["same", "graded"],
+                 "n": [2, 3]})
+    cs += product(dom2, lambda c: not (c["n"] == 2 and c["Jpat"] == "full") and admissible(c)
+                  and not (tier == "quick" and c["route"] != "ham_sbi" and c["n"] == 3))
     if tier == "quick":
         # quick: the operator-form tensor routes on one grid and correlation time
         for c in cs:
